@@ -147,6 +147,9 @@ def render(recipe):
                 # start + join happen inside the harness helper with the parent's tracing suspended: while the child runs
                 # the parent delivers no trace events, so at most one program thread produces events at any time
                 rec(emit(fidx, '%s_t = SPAWN(lambda: %s, "T%d_%%d" %% NEXT())' % (pad, call_text(fi, args), sid)))
+            elif kind == 'fin':
+                # a local holding an object with a finaliser: it is finalised when the last reference goes away
+                rec(emit(fidx, '%s%s = FIN(%d)' % (pad, stmt[1], stmt[2])))
             elif kind == 'pass':
                 rec(emit(fidx, '%spass' % pad))
             else:
@@ -251,9 +254,10 @@ def run_program(recipe, rendered, tracer=None, values=None, register_sources=Tru
         if register_sources and f.get('src', True):
             lab.register_source(f['path'], src)
     lock = threading.Lock()
+    live_log = res.log          # frozen when the program ends: what runs later (finalisers) is not part of its output
 
     def mark(x):
-        res.log.append(canon_obs(x))
+        live_log.append(canon_obs(x))
 
     def tick(ms):
         lab.CLOCK.advance_ms(ms)
@@ -283,6 +287,13 @@ def run_program(recipe, rendered, tracer=None, values=None, register_sources=Tru
             sys.settrace(old_trace)
         return name
 
+    class Fin:
+        def __init__(self, tag):
+            self.tag = tag
+
+        def __del__(self):
+            live_log.append(['finalised', self.tag])
+
     errs = []
 
     def KEEP(e):
@@ -305,6 +316,7 @@ def run_program(recipe, rendered, tracer=None, values=None, register_sources=Tru
         m.RUN = RUN
         m.V = values if values is not None else []
         m.KEEP = KEEP
+        m.FIN = Fin
         m.ERRS = errs
         m.CustomExc = CustomExc
         m.CustomBase = CustomBase
@@ -316,6 +328,7 @@ def run_program(recipe, rendered, tracer=None, values=None, register_sources=Tru
         # traced (an agent failure there would block the harness in Thread.start); threads the *program* spawns
         # are traced from their bootstrap on, exactly as application threads are
         undo = apply_ambient(recipe.get('ambient') or [])
+        dummies = {id(t) for t in threading.enumerate() if isinstance(t, threading._DummyThread)}
         threading.settrace(tracer)
         sys.settrace(tracer)
         try:
@@ -330,10 +343,15 @@ def run_program(recipe, rendered, tracer=None, values=None, register_sources=Tru
             sys.settrace(None)              # from here on harness code: reading the state back is not traced
             # interpreter-wide and thread-wide settings the program can read back, and the exception objects it kept
             res.log.append(['ambient', ambient_state()])
+            # what threading.enumerate() / active_count() show the program beyond its own live threads: placeholder
+            # thread objects that somebody created for threads of the program that have already ended
+            res.log.append(['placeholder-threads-left', len([t for t in threading.enumerate() if isinstance(
+                t, threading._DummyThread) and id(t) not in dummies])])
             res.log.append(['kept-exceptions', [exc_shape(e) for e in errs]])
         finally:
             for u in reversed(undo):
                 u()
+        res.log = list(live_log)
         # the module namespaces are part of the program's final data
         res.log.append(['module-dunders', [sorted(k for k in m.__dict__ if k.startswith('__')) for m in mods]])
         sys.settrace(None)              # the thread's own teardown is harness code
@@ -458,11 +476,17 @@ _names = ['a', 'b', 'c', 'd', 'e']
 def program_recipes(draw, max_funcs=4, max_stmts=6, allow_threads=True, allow_gens=True, allow_raise=True,
                     allow_methods=True, n_values=0, two_files=True, max_depth=2, hold_bias=1):
     nfiles = draw(st.integers(1, 2)) if two_files else 1
-    same_base = nfiles == 2 and draw(st.booleans())
+    layout = draw(st.sampled_from(['same_base', 'same_base', 'other', 'other', 'suffix', 'prefix'])) if nfiles == 2 else None
     if nfiles == 1:
         files = [{'path': '/app/pkg/mod_a.py', 'src': True}]
-    elif same_base:
+    elif layout == 'same_base':
         files = [{'path': '/app/pkg/mod_a.py', 'src': True}, {'path': '/app/other/mod_a.py', 'src': True}]
+    elif layout == 'suffix':
+        # one file name ends with the other
+        files = [{'path': '/app/pkg/mod_a.py', 'src': True}, {'path': '/app/pkg/xmod_a.py', 'src': True}]
+    elif layout == 'prefix':
+        # one file name starts with the other
+        files = [{'path': '/app/pkg/mod_a.py', 'src': True}, {'path': '/app/pkg/mod_a.pyx.py', 'src': True}]
     else:
         files = [{'path': '/app/pkg/mod_a.py', 'src': True}, {'path': '/app/lib/mod_b.py', 'src': True}]
     nfuncs = draw(st.integers(1, max_funcs))
@@ -533,6 +557,13 @@ def program_recipes(draw, max_funcs=4, max_stmts=6, allow_threads=True, allow_ge
             if allow_threads and callees and depth == 0 and fi == 0:
                 opts += ['spawn']
             opts += ['tick']
+            # a finalisable local is bound once per invocation and never rebound: CPython keeps the f_locals snapshot
+            # of a frame whose locals were read (by any trace function) until the frame exits, so *when* a rebound
+            # value dies inside the invocation is not something an agent built on sys.settrace can preserve
+            # (for the same reason at most one per function: the order in which two of them die at frame exit is not
+            # preserved either - the one the snapshot dict still holds goes last)
+            if depth == 0 and not in_loop and 'z1' not in scope_all:
+                opts += ['fin']
             kind = draw(st.sampled_from(opts))
             if kind == 'set':
                 name = draw(st.sampled_from(_names))
@@ -548,6 +579,11 @@ def program_recipes(draw, max_funcs=4, max_stmts=6, allow_threads=True, allow_ge
             elif kind == 'hold':
                 name = draw(st.sampled_from(['h1', 'h2', 'h3']))
                 body.append(['hold', name, draw(st.integers(0, n_values - 1))])
+                if name not in scope_all:
+                    scope_all = scope_all + [name]
+            elif kind == 'fin':
+                name = 'z1'
+                body.append(['fin', name, draw(st.integers(0, 9))])
                 if name not in scope_all:
                     scope_all = scope_all + [name]
             elif kind == 'mark':
@@ -642,7 +678,7 @@ def scope_table(recipe, rendered):
                     bound_int = bound_int + [name]
                 if not is_int and name in bound_int:
                     bound_int = [x for x in bound_int if x != name]
-            elif kind == 'hold':
+            elif kind in ('hold', 'fin'):
                 if stmt[1] not in bound_all:
                     bound_all = bound_all + [stmt[1]]
             elif kind == 'call':
@@ -687,7 +723,8 @@ def chain_programs(draw, n_values=6, max_depth=5):
     two = draw(st.booleans())
     files = [{'path': '/app/pkg/mod_a.py', 'src': True}]
     if two:
-        files.append({'path': draw(st.sampled_from(['/app/lib/mod_b.py', '/app/other/mod_a.py'])), 'src': True})
+        files.append({'path': draw(st.sampled_from(['/app/lib/mod_b.py', '/app/other/mod_a.py', '/app/pkg/xmod_a.py'])),
+                      'src': True})
     funcs = []
     sid = 0
     target = 0
